@@ -12,10 +12,12 @@ mod ops_ecc;
 mod ops_ff;
 mod ops_hash;
 mod ops_ng;
+mod ops_parse;
 mod ops_pi;
 mod pipeline;
 mod props;
 mod repair;
+mod rx;
 mod stdfix;
 mod tracing_t;
 mod util;
